@@ -82,6 +82,7 @@ fn main() {
             "c04_env" => vm::c04_env(r),
             "c10_step" => vm::c10_step(r),
             "c18_mint" => c18::c18_mint(r),
+            "c09_empty_proof" => c18::c09_empty_proof(r),
             "pool_op" => melmint::pool_op(r),
             "multiply_frac" => melmint::multiply_frac(r),
             "c11_weight" => vm::c11_weight(r),
